@@ -233,7 +233,7 @@ fn check_codes(local: &mut Local) {
 }
 
 fn records() -> Vec<Tags> {
-    // 11 records: keys ⊆ {a,b,c} plus mixed-case / digit / underscore names
+    // 19 records: every key set ⊆ {a,b,c,d} plus mixed-case / digit / underscore names
     vec![
         vec![],
         mk_tags(&[("a", V::num(1.0))]),
@@ -247,6 +247,15 @@ fn records() -> Vec<Tags> {
         // names whose byte order and case-insensitive order differ
         mk_tags(&[("curVal", V::num(1.0)), ("current", V::num(2.0)), ("aC", V::Marker), ("ab", V::Marker)]),
         mk_tags(&[("zZ", V::Marker), ("za", V::Marker), ("a_", V::Marker), ("a1", V::Marker), ("aA", V::Marker)]),
+        // with a fourth key: every pair of records of equal size sharing their first and last key
+        mk_tags(&[("d", V::num(4.0))]),
+        mk_tags(&[("a", V::num(1.0)), ("d", V::Null)]),
+        mk_tags(&[("b", V::num(2.0)), ("d", V::str("z"))]),
+        mk_tags(&[("c", V::Marker), ("d", V::Marker)]),
+        mk_tags(&[("a", V::num(1.0)), ("b", V::num(2.0)), ("d", V::num(4.0))]),
+        mk_tags(&[("a", V::num(1.0)), ("c", V::num(3.0)), ("d", V::num(4.0))]),
+        mk_tags(&[("b", V::num(2.0)), ("c", V::num(3.0)), ("d", V::num(4.0))]),
+        mk_tags(&[("a", V::num(1.0)), ("b", V::num(2.0)), ("c", V::num(3.0)), ("d", V::num(4.0))]),
     ]
 }
 
@@ -316,7 +325,7 @@ fn check_grid_build(recs: &[Tags]) -> Verdict {
 
 pub fn run(tier: Tier) -> i32 {
     let mut run = Run::new("C19", tier, "exploration");
-    run.rule = "every value of Σ and U: the 18 predicates, HaystackKind::from, all 20 typed TryFrom<&Value> conversions, the 14 typed dict getters + 3 has_* (key present with that value / absent); all 256 u8 codes and all 18 names plus every near-miss name; every list of <= 3 (quick 2) records over 9 records through the three grid constructors; non-trivial = distinct value / name / record list".into();
+    run.rule = "every value of Σ and U: the 18 predicates, HaystackKind::from, all 20 typed TryFrom<&Value> conversions, the 14 typed dict getters + 3 has_* (key present with that value / absent); all 256 u8 codes and all 18 names plus every near-miss name; every list of <= 4 (quick 3) records over 19 records (every key set over {a,b,c,d} + mixed-case names) through the three grid constructors; non-trivial = distinct value / name / record list".into();
     crate::engine::quiet_panics();
     let mut l0 = Local::new();
     if let Err(m) = guarded(|| check_codes(&mut l0)) {
@@ -355,7 +364,7 @@ pub fn run(tier: Tier) -> i32 {
     // grid construction
     let recs = records();
     let n = recs.len();
-    let maxlen = tier.pick(2usize, 3);
+    let maxlen = tier.pick(3usize, 4);
     let mut lists: Vec<Vec<usize>> = vec![vec![]];
     let mut frontier: Vec<Vec<usize>> = vec![vec![]];
     for _ in 0..maxlen {
